@@ -757,7 +757,9 @@ pub(crate) fn solve_expression(
                                     }
                                 }
                                 if res != SolverResult::True {
-                                    return res;
+                                    // NOTE: Like the general case below, a list in which no entry
+                                    // satisfies the block is false (not missing)
+                                    return SolverResult::False;
                                 }
                             }
                             return SolverResult::True;
@@ -797,7 +799,9 @@ pub(crate) fn solve_expression(
                                     }
                                 }
                                 if res != SolverResult::True {
-                                    return res;
+                                    // NOTE: Like the general case below, a list in which no entry
+                                    // satisfies the block is false (not missing)
+                                    return SolverResult::False;
                                 }
                             }
                             return SolverResult::True;
